@@ -74,6 +74,8 @@ type Agent struct {
 	startedCh     <-chan struct{}
 	startedFn     func()
 	isControlling atomic.Bool
+	// generation counts Restarts: a remote candidate handed over before a Restart is not added after it.
+	generation atomic.Uint64
 
 	maxBindingRequests uint16
 
@@ -1024,13 +1026,19 @@ func (a *Agent) AddRemoteCandidate(cand Candidate) error {
 			return ErrAddressParseFailed
 		}
 
-		go a.resolveAndAddMulticastCandidate(hostCandidate)
+		go a.resolveAndAddMulticastCandidate(hostCandidate, a.generation.Load())
 
 		return nil
 	}
 
+	generation := a.generation.Load()
 	go func() {
 		if err := a.loop.Run(a.loop, func(_ context.Context) {
+			if a.generation.Load() != generation {
+				a.log.Infof("Ignoring remote candidate of a previous generation: %s", cand)
+
+				return
+			}
 			// nolint: contextcheck
 			a.addRemoteCandidate(cand)
 		}); err != nil {
@@ -1043,7 +1051,7 @@ func (a *Agent) AddRemoteCandidate(cand Candidate) error {
 	return nil
 }
 
-func (a *Agent) resolveAndAddMulticastCandidate(cand *CandidateHost) {
+func (a *Agent) resolveAndAddMulticastCandidate(cand *CandidateHost, generation uint64) {
 	if a.mDNSConn == nil {
 		return
 	}
@@ -1065,6 +1073,11 @@ func (a *Agent) resolveAndAddMulticastCandidate(cand *CandidateHost) {
 	}
 
 	if err = a.loop.Run(a.loop, func(_ context.Context) {
+		if a.generation.Load() != generation {
+			a.log.Infof("Ignoring remote mDNS candidate of a previous generation: %s", cand)
+
+			return
+		}
 		// nolint: contextcheck
 		a.addRemoteCandidate(cand)
 	}); err != nil {
@@ -2013,6 +2026,7 @@ func (a *Agent) Restart(ufrag, pwd string) error { //nolint:cyclop
 		a.gatherCandidateCancel()
 
 		// Clear all agent needed to take back to fresh state
+		a.generation.Add(1)
 		a.removeUfragFromMux()
 		a.localUfrag = ufrag
 		a.localPwd = pwd
